@@ -1,6 +1,7 @@
 #![allow(dead_code, unused_imports, clippy::too_many_arguments)]
 mod backend;
 mod clock;
+mod codec;
 mod curves;
 mod faults;
 mod fixtures;
